@@ -293,6 +293,35 @@ def build(arg):
     return T
 """
 
+# one Signal visible under several Python names in one context (the emitted name must not depend on set order)
+MODULES["alias"] = HEADER + """
+class T(Entity):
+    a = Port.input(Bit)
+    o = Port.output(Bit)
+    o2 = Port.output(Bit)
+    v = Port.input(BitVector[4])
+    w = Port.output(Bit)
+
+    def architecture(self):
+        alpha = Signal[Bit](False)
+        beta = alpha
+        gamma = alpha
+        vec = Signal[BitVector[4]]()
+        low = vec[0]
+        zeta = vec
+
+        @std.concurrent
+        def logic():
+            alpha.next = self.a
+            self.o <<= beta
+            self.o2 <<= gamma
+            zeta.next = self.v
+            self.w <<= low | vec[1]
+
+def build(arg):
+    return T
+"""
+
 # names that collide (case-insensitively, with reserved words, with each other across scopes)
 MODULES["names"] = HEADER + """
 class T(Entity):
@@ -631,6 +660,7 @@ LETTERS: dict[str, tuple] = {
     "glob5": ("glob", 5, "accept", "same module, W=5"),
     "env3": ("env", 3, "accept", "one module-level entity class whose architecture() reads module global W, W=3"),
     "env5": ("env", 5, "accept", "same class object, W=5"),
+    "alias": ("alias", None, "accept", "one Signal (and a sub-reference of it) bound to several Python names used in one context"),
     "names": ("names", None, "accept", "colliding / reserved / case-different names"),
     "exitcoro": ("exitcoro", None, "accept", "sub-entities with coroutines + cohdl.always, cohdl.on_block_exit handlers"),
     "rej_arch": ("rej_arch", None, "reject", "exception raised in architecture()"),
